@@ -462,7 +462,7 @@ def check_parse(rep: Report, ix) -> None:
             if good:
                 built[tgt.name] = r
         elif is_name(v, P):
-            guards = [d for d in g.nodes if d.kind == "if" and g.dominates(d, r) and _isinstance_of(d.ast.test, P) == ["InterruptsBase"] and r in g.reachable(d.succs("true")) and r not in g.reachable(d.succs("false"))]
+            guards = [d for d in g.nodes if d.kind == "if" and g.dominates(d, r) and _isinstance_of(d.ast.test, P) == ["InterruptsBase"] and r in g.reachable(d.succs("true"), include_srcs=True) and r not in g.reachable(d.succs("false"), include_srcs=True)]
             good = bool(guards)
         if not rep.oblige(f"parse/return-is-interrupt#{k}", good, ast.unparse(r.ast)):
             rep.violation("C09.parse-exhaustive", f"{ref}::return", f"`{ast.unparse(r.ast)}` does not return an interrupt object", line=r.lineno)
@@ -474,7 +474,7 @@ def check_parse(rep: Report, ix) -> None:
         v = r.ast.value
         if not (len(v.args) == 1 and is_name(v.args[0], P) and not v.keywords):
             return False
-        return any(d.kind == "if" and g.dominates(d, r) and test(d.ast.test) and r in g.reachable(d.succs("true")) and r not in g.reachable(d.succs("false")) for d in g.nodes)
+        return any(d.kind == "if" and g.dominates(d, r) and test(d.ast.test) and r in g.reachable(d.succs("true"), include_srcs=True) and r not in g.reachable(d.succs("false"), include_srcs=True) for d in g.nodes)
 
     num = guarded("ConstantInterrupts", lambda t: sorted(_isinstance_of(t, P) or []) == ["float", "int"])
     seq = guarded("FixedInterrupts", lambda t: isinstance(t, ast.Call) and dotted(t.func) == "hasattr" and len(t.args) == 2 and is_name(t.args[0], P) and isinstance(t.args[1], ast.Constant) and t.args[1].value == "__iter__")
@@ -520,4 +520,7 @@ def check(tier: str) -> Report:
         "RealtimeInterrupts is not deterministic and is outside the property",
     ]
     rep.note("not decided: float round-off of ceil/log near exact hits; the code's repair branches are recognised, their numeric sufficiency is not proved")
+    from .c08 import thorough_selftest
+
+    thorough_selftest(rep)
     return rep
